@@ -204,7 +204,12 @@ class BGP(protocol.Protocol):
             self.fsm.header_error(bgp_cons.ERR_MSG_HDR_CONN_NOT_SYNC)
             return False
             # Check the length of the message, must be less than 4096, bigger than 19
-        if length < bgp_cons.HDR_LEN or length > bgp_cons.MAX_LEN:
+        min_length = {
+            bgp_cons.MSG_OPEN: bgp_cons.BGP_MIN_OPEN_MSG_SIZE,
+            bgp_cons.MSG_UPDATE: bgp_cons.BGP_MIN_UPDATE_MSG_SIZE,
+            bgp_cons.MSG_NOTIFICATION: bgp_cons.BGP_MIN_NOTIFICATION_MSG_SIZE
+        }.get(msg_type, bgp_cons.HDR_LEN)
+        if length < min_length or length > bgp_cons.MAX_LEN:
             self.fsm.header_error(bgp_cons.ERR_MSG_HDR_BAD_MSG_LEN, struct.pack('!H', length))
             return False
             # Check whether the entire message is already available
